@@ -8,7 +8,8 @@ Import ListNotations.
     transition systems).  It reads only the harness notes in/out/act and the arrival events
     ([arrival] = the event that counts the thread: the first OLock after OIn for the mutex barrier, the
     ORmw on a1 for the spin barrier):
-      - at  out g  of any thread: n distinct threads have noted  in g  and  act g  has been noted;
+      - at  out g  of any thread: n distinct threads have noted  in g  and  act g  has been noted (unless the
+        scenario crosses generation g with the default NoOperation lambda: [sil g], then no act may be noted);
       - at  act g : n threads have noted  in g,  no thread has noted  out g,  act g  was not noted before,
         and the acting thread is the one whose arrival event for g is the latest, all n having arrived. *)
 Record chk : Type := mkChk {
@@ -32,31 +33,32 @@ Definition is_arrival (spin : bool) (o : op) : bool :=
   | _ => false
   end.
 
-Fixpoint bar_check (spin : bool) (n : nat) (k : chk) (tr : list event) : bool :=
+Fixpoint bar_check (spin : bool) (n : nat) (sil : nat -> bool) (k : chk) (tr : list event) : bool :=
   match tr with
   | [] => true
   | (t, o) :: r =>
       match o with
       | OIn g =>
           negb (existsb (fun p => (fst p =? t) && (snd p =? g)) (k_in k)) &&
-          bar_check spin n (mkChk ((t, g) :: k_in k) (k_out k) (k_act k) (k_arr k) (upd (k_gen k) t (Some g))) r
+          bar_check spin n sil (mkChk ((t, g) :: k_in k) (k_out k) (k_act k) (k_arr k) (upd (k_gen k) t (Some g))) r
       | OOut g =>
-          (count_gen g (k_in k) =? n) && existsb (Nat.eqb g) (k_act k) &&
-          bar_check spin n (mkChk (k_in k) ((t, g) :: k_out k) (k_act k) (k_arr k) (k_gen k)) r
+          (count_gen g (k_in k) =? n) && (sil g || existsb (Nat.eqb g) (k_act k)) &&
+          bar_check spin n sil (mkChk (k_in k) ((t, g) :: k_out k) (k_act k) (k_arr k) (k_gen k)) r
       | OAct g =>
+          negb (sil g) &&
           (count_gen g (k_in k) =? n) && (count_gen g (k_out k) =? 0) && negb (existsb (Nat.eqb g) (k_act k)) &&
           (count_gen g (k_arr k) =? n) &&
           (match last_arrival g (k_arr k) with Some u => u =? t | None => false end) &&
-          bar_check spin n (mkChk (k_in k) (k_out k) (g :: k_act k) (k_arr k) (k_gen k)) r
+          bar_check spin n sil (mkChk (k_in k) (k_out k) (g :: k_act k) (k_arr k) (k_gen k)) r
       | _ =>
           if is_arrival spin o
           then match k_gen k t with
-               | Some g => bar_check spin n (mkChk (k_in k) (k_out k) (k_act k) ((t, g) :: k_arr k) (upd (k_gen k) t None)) r
-               | None => bar_check spin n k r
+               | Some g => bar_check spin n sil (mkChk (k_in k) (k_out k) (k_act k) ((t, g) :: k_arr k) (upd (k_gen k) t None)) r
+               | None => bar_check spin n sil k r
                end
-          else bar_check spin n k r
+          else bar_check spin n sil k r
       end
   end.
 
-Definition bar_check0 (spin : bool) (n : nat) (tr : list event) : bool :=
-  bar_check spin n (mkChk [] [] [] [] (fun _ => None)) tr.
+Definition bar_check0 (spin : bool) (n : nat) (sil : nat -> bool) (tr : list event) : bool :=
+  bar_check spin n sil (mkChk [] [] [] [] (fun _ => None)) tr.
